@@ -157,6 +157,8 @@ class Gen:
                 kind = "plain"
             if kind == "strain" and (have_strain or not kinds_nonlin):
                 kind = "plain"
+            if want.get("force_strain") and k == 0 and kinds_nonlin:
+                kind = "strain"
             if kind == "age":
                 name = "age"
                 have_age = True
@@ -249,6 +251,13 @@ class Gen:
                             # same-named flows leaving one stratum for several others: select one of them by BOTH ends
                             cs_, ca_, cbs_ = cross[fn]
                             sf, df = {cs_: ca_}, {cs_: r.choice(cbs_)}
+                        if want.get("fadj_pairs") and (sf or df) and sf != df and r.random() < want["fadj_pairs"]:
+                            # an earlier request for the same flow with the two filters at the other ends (or one of them
+                            # at both): each request applies where ITS source and destination filters match
+                            e_sf, e_df = r.choice([(df, sf), (sf or df, sf or df), (sf or df, {}), ({}, sf or df)])
+                            if (e_sf, e_df) != (sf, df):
+                                fadj.append([fn, {s: {"mul": frac(r)} for s in strata}, dict(e_sf), dict(e_df)])
+                                meta["adj"].append("filtered twin")
                         fadj.append([fn, adjs, sf, df])
                         meta["adj"].append("filtered" if (sf or df) else "plain")
                         if r.random() < 0.2:
